@@ -26,7 +26,7 @@ def witness_search(tier, seed):
     from simfile.ssc import SSCSimfile, SSCChart
     import simfile
     vals = [None, "", "a", "x:y", "a;b", "1", ":240", "::", ":TIME=1:LEN=2"]
-    for notes, k, v in itertools.product(["", "1", "0000\n0000"], ["CREDIT", "ATTACKS", "DISPLAYBPM", "FOO"], vals):
+    for notes, k, v in itertools.product(["", "1", "0000\n0000"], ["CREDIT", "ATTACKS", "DISPLAYBPM", "FOO", "NOTESKIN"], vals):
         for notes_key, pos in itertools.product(("NOTES", "NOTES2"), ("last", "first")):
             ch = SSCChart()
             items = [("STEPSTYPE", "dance-single"), (k, v), ("OTHER", notes)]
